@@ -11,6 +11,7 @@ PID = 'C01'
 
 
 from mirsym.harness import process_failed, witness, discharge_known
+from mirsym.models import str_push
 
 
 # ---------------------------------------------------------------------- harness A: whole line
@@ -245,7 +246,66 @@ def replayer(v):
         if not out.get('ok'): return (True, 'native parse error')
         a = out['instructions'][0].get('arguments') or []
         return ((not a) or a[0] != v['expected'], 'native first argument %r' % (a[:1],))
+    if k == 'c01_lemma':
+        # rebuild a real line that brings the scanner into the loop-head state of the counterexample, then compare the native
+        # parse with the documented syntax (ref_tokens)
+        A = v['A']; lead = ''
+        if v['phase'] in ('MID', 'CTL', 'VAR'):
+            if not all('a' <= ch <= 'z' for ch in A): return (None, 'loop-head state with non-plain accumulated text: not rebuilt as a line')
+            lead = ('"' if v['quoted'] else '') + A + {'CTL': '\\', 'VAR': '\\$'}.get(v['phase'], '')
+        tail = v['buffer'][v['p']:]
+        # the lemma is about one character; what follows it decides whether the difference shows in a whole parse, so a few
+        # continuations are tried (confirmation only - the verdict came from the solver)
+        tails = [tail] + [tail[:1] + t for t in ('z', '', '{', '{z', '"', '"z', ' z', 'n', 'nz"', 'z"')]
+        last = None
+        for tl in tails:
+            rest = lead + tl
+            text = 'o = c ' + rest
+            if text != text.strip() or '\n' in text or '\r' in text: continue
+            out = H.replay(dict(mode='parse', text=text)); exp = ref_tokens(rest)
+            if out.get('panic'): differs, why = True, 'native panic'
+            elif isinstance(exp, str): differs, why = (out.get('ok') or out['error']['kind'] != exp), 'documented syntax: error %s; native: %r' % (exp, out.get('error') or 'ok')
+            elif not out.get('ok'): differs, why = True, 'native parse error %s; documented syntax: %r' % (out['error']['kind'], exp)
+            else:
+                got = out['instructions'][0].get('arguments') or []
+                differs, why = got != exp, 'native arguments %r; documented syntax: %r' % (got, exp)
+            last = (text, out, exp, why)
+            if differs:
+                v['native'] = out; v['line'] = text; v['documented'] = exp
+                return (True, why)
+        if last is None: return (None, 'line would be changed by trimming / line splitting')
+        v['native'] = last[1]; v['line'] = last[0]; v['documented'] = last[2]
+        return (False, last[3])
     return (None, 'no replayer for %r' % k)
+
+
+def ref_tokens(s):
+    """the documented argument syntax, as a plain reference tokenizer (used only to judge native replays)"""
+    i = 0; out = []
+    while True:
+        while i < len(s) and s[i] == ' ': i += 1
+        if i >= len(s) or s[i] == '#': return out
+        quoted = s[i] == '"'; A = ''
+        if quoted: i += 1
+        while True:
+            if i >= len(s):
+                if quoted: return 'MissingEndQuotes'
+                out.append(A); return out
+            c = s[i]
+            if c == '\\':
+                if i + 1 >= len(s): return 'ControlWithoutValidValue'
+                d = s[i + 1]
+                if d in '\\"': A += d
+                elif d in 'nrt': A += {'n': '\n', 'r': '\r', 't': '\t'}[d]
+                elif d == '$':
+                    if i + 2 < len(s) and s[i + 2] == '{': A += '\\${'; i += 3; continue
+                    return 'ControlWithoutValidValue'
+                else: return 'ControlWithoutValidValue'
+                i += 2; continue
+            if quoted and c == '"': i += 1; out.append(A); break
+            if not quoted and c == ' ': out.append(A); break
+            if not quoted and c == '#': out.append(A); return out
+            A += c; i += 1
 
 
 def main(tier, seed):
@@ -255,6 +315,7 @@ def main(tier, seed):
     if tier == 'quick':
         for sh in shapes: chk.job(job_line, 'A:line<=8 shape=%d%d%d' % sh, L=8, name_cap=2, nargs=2, arg_cap=3, shape=sh)
         chk.job(job_token, 'B:token<=5', A=5, buf_cap=12)
+        chk.job(job_token_inductive, "B':scanner lemmas", N=24, C=12)
         chk.job(job_script, 'C:script<=3', n=3, name_cap=1, arg_cap=1)
         chk.bounds = dict(A='rendered line <= 8 chars, names <= 2, <= 2 args x <= 3 chars, one job per instruction shape',
                           B='argument <= 5 chars in a buffer <= 12', C='<= 3 lines of [out =] cmd [arg], names 1 char, arg <= 1 char')
@@ -262,6 +323,7 @@ def main(tier, seed):
         for sh in shapes: chk.job(job_line, 'A:line<=10 shape=%d%d%d' % sh, L=10, name_cap=2, nargs=2, arg_cap=3, shape=sh)
         chk.job(job_line, 'A:line<=9,3args', L=9, name_cap=1, nargs=3, arg_cap=2, shape=(0, 0, 1))
         chk.job(job_token, 'B:token<=6', A=6, buf_cap=14)
+        chk.job(job_token_inductive, "B':scanner lemmas", N=64, C=32)
         chk.job(job_script, 'C:script<=4', n=4, name_cap=1, arg_cap=2)
         chk.bounds = dict(A='rendered line <= 10 chars (names <= 2, <= 2 args x <= 3), per shape; <= 9 chars with 3 args x <= 2',
                           B='argument <= 6 chars in a buffer <= 14', C='<= 4 lines, names 1 char, arg <= 2 chars')
@@ -270,3 +332,160 @@ def main(tier, seed):
                        'names: no white space, quote, backslash, #, =; not starting with : (or ! as first token)']
     results = chk.run()
     return chk.finish(results, 'every obligation is a solver query over all inputs within the bounds; samples are solver-produced witnesses')
+
+
+# ---------------------------------------------------------------------- harness B': the token scanner, one loop iteration at a time
+class _Captured(Exception): pass
+
+
+def job_token_inductive(ctx, jr, N, C, part='C01'):
+    """Inductive step lemmas for the character loop of parse_next_value (argument configuration): from an arbitrary loop-head
+    state of each phase (before the token, inside it, after a backslash) one iteration on an arbitrary character leads to the
+    phase and accumulated text that the documented syntax prescribes, or to the documented return value. Together with the
+    definition of the rendering they give the token round trip for arguments of any length up to the modelling capacity."""
+    jr.bounds = dict(buffer_chars=N, accumulated_argument_chars=C, position='any index of the buffer', alphabet='all Unicode scalar values',
+                     claim='per-iteration lemmas; composition over the cells of a rendering is an induction argued in DESIGN.md 8.6')
+    fname = 'parser::parse_next_value'
+    pid = part
+    jr.bounds['part'] = {'C01': 'transitions used by the documented rendering (blanks, quotes, plain characters, the five escapes, terminators, comment)',
+                         'C08': 'error returns (unterminated quote, backslash followed by anything but the documented letters, at any position)',
+                         'C02': 'backslash-dollar-brace is kept as the three characters \\${ (assumption of the C02 harness)'}[part]
+    names = ctx.types.enums['types::error::ScriptError']
+    total_res = None
+
+    def fresh_engine():
+        e = ctx.engine(unwind=3)
+        buf = H.sym_str(e, 'buffer', N); bufv = V(buf.len, buf.ch)
+        start = e.fresh_int('start', 0, N)
+        e.assume(start < buf.len)
+        st = State(True, {(0, 'meta'): meta_new(1)})
+        cap = {}
+
+        def cb(eng, fn, info, L, st1, fid): cap.update(fn=fn, info=info, L=L, st=st1.copy(), fid=fid); raise _Captured()
+        e.loop_entry_hooks[fname] = cb
+        try: e.run('core', fname, [P(0, 'meta'), bufv, start, True, True, False, False], st)
+        except _Captured: pass
+        if not cap: raise Abort('the character loop of parse_next_value was not reached')
+        e.stack.clear(); e.loop_entry_hooks.clear()
+        return e, buf, bufv, start, cap
+
+    def header_state(e, cap, buf, phase, quoted, A, p):
+        fn, fid = cap['fn'], cap['fid']; d = fn.debug
+        st = cap['st'].copy()
+        st.m[(fid, d['index'])] = p
+        it0 = st.m[(fid, d['iter'])]
+        st.m[(fid, d['iter'])] = T([p, buf.len], it0.ty)
+        st.m[(fid, d['argument'])] = A
+        st.m[(fid, d['in_argument'])] = phase != 'PRE'
+        st.m[(fid, d['using_quotes'])] = quoted if phase != 'PRE' else False
+        st.m[(fid, d['in_control'])] = phase in ('CTL', 'VAR')
+        st.m[(fid, d['found_end'])] = False
+        st.m[(fid, d['found_variable_prefix'])] = phase == 'VAR'
+        return st
+
+    def read_state(cap, st):
+        fn, fid = cap['fn'], cap['fid']; d = fn.debug
+        g = lambda n: st.m.get((fid, d[n]))
+        return dict(index=g('index'), iter=g('iter'), argument=g('argument'), in_argument=g('in_argument'), using_quotes=g('using_quotes'),
+                    in_control=g('in_control'), found_end=g('found_end'), fvp=g('found_variable_prefix'))
+
+    def is_phase(s_, phase, quoted, A2, p2):
+        cs = [zeq(s_['index'], p2), zeq(s_['iter'].f[0], p2), zeq(s_['in_argument'], phase != 'PRE'), zeq(s_['in_control'], phase in ('CTL', 'VAR')),
+              zeq(s_['found_end'], False), zeq(s_['fvp'], phase == 'VAR'), str_eq(s_['argument'], A2)]
+        if phase != 'PRE': cs.append(zeq(s_['using_quotes'], quoted))
+        return zand(*cs)
+
+    lemmas = 0
+    for phase in {'C01': ('BASE', 'PRE', 'MID', 'CTL'), 'C08': ('MID', 'CTL', 'VAR'), 'C02': ('CTL', 'VAR')}[part]:
+        e, buf, bufv, start, cap = fresh_engine()
+        t0 = time.time()
+        fn, info, L, fid = cap['fn'], cap['info'], cap['L'], cap['fid']
+        obs = []
+        if phase == 'BASE':
+            s0 = read_state(cap, cap['st'])
+            obs.append((cap['st'].g, is_phase(s0, 'PRE', False, S(0, []), start), 'entry establishes the before-token phase at the start index'))
+            obs.append((cap['st'].g, zeq(cap['st'].m[(fid, fn.debug['end_index'])], buf.len), 'end index is the buffer length'))
+        else:
+            quoted = e.fresh_bool('quoted')
+            A = H.sym_str(e, 'A', C) if phase != 'PRE' else S(0, [])
+            p = e.fresh_int('p', 0, N)
+            e.assume(p <= buf.len)
+            if phase == 'MID': e.assume(z3.Implies(z3.Not(quoted), A.len >= 1))
+            if phase != 'PRE': e.assume(A.len <= C - 3)      # room for the longest push (3 chars)
+            st = header_state(e, cap, buf, phase, quoted, A, p)
+            st.g = True
+            e.stack.append(fn.name)
+            try: exits, back = e.run_region(fn, info, L, st, fid)
+            finally: e.stack.pop()
+            c = sel(buf.ch, p, 0); atend = zeq(p, buf.len); inb = znot(atend)
+            # what the documented syntax prescribes for this phase and character
+            def push(A_, ch): return str_push(A_, ch)
+            from mirsym.models import str_push
+            exp_back = []     # (condition, phase', quoted', A', p')
+            exp_ret = []      # (condition, kind, payload)
+            if phase == 'PRE':
+                exp_back += [('C01', zand(inb, zeq(c, SP)), 'PRE', False, S(0, []), p + 1), ('C01', zand(inb, zeq(c, DQ)), 'MID', True, S(0, []), p + 1),
+                             ('C01', zand(inb, zeq(c, BS)), 'CTL', False, S(0, []), p + 1),
+                             ('C01', zand(inb, c != SP, c != DQ, c != BS, c != HASH), 'MID', False, S(1, [c]), p + 1)]
+                exp_ret += [('C01', zand(inb, zeq(c, HASH)), 'none', buf.len), ('C01', atend, 'none', p)]
+            elif phase == 'MID':
+                plain = zand(inb, c != BS, zimp(quoted, c != DQ), zimp(znot(quoted), zand(c != SP, c != HASH)))
+                exp_back += [('C01', zand(inb, zeq(c, BS)), 'CTL', quoted, A, p + 1), ('C01', plain, 'MID', quoted, push(A, c), p + 1)]
+                exp_ret += [('C01', zand(inb, quoted, zeq(c, DQ)), 'some', p + 1),
+                            ('C01', zand(inb, znot(quoted), zeq(c, SP)), 'some', (p, p + 1)),     # the blank itself may or may not be consumed: the next scan skips blanks
+                            ('C01', zand(inb, znot(quoted), zeq(c, HASH)), 'some', buf.len),
+                            ('C01', zand(atend, znot(quoted)), 'some', p), ('C08', zand(atend, quoted), 'err', 'MissingEndQuotes')]
+            elif phase == 'CTL':
+                esc = zor(zeq(c, BS), zeq(c, DQ), zeq(c, 110), zeq(c, 114), zeq(c, 116))
+                dec = zite(zeq(c, 110), LF, zite(zeq(c, 114), CR, zite(zeq(c, 116), TAB, c)))
+                exp_back += [('C01', zand(inb, esc), 'MID', quoted, push(A, dec), p + 1), ('C02', zand(inb, zeq(c, DOLLAR)), 'VAR', quoted, A, p + 1)]
+                exp_ret += [('C08', zand(inb, znot(esc), c != DOLLAR), 'err', 'ControlWithoutValidValue'), ('C08', atend, 'err', 'ControlWithoutValidValue')]
+            else:
+                exp_back += [('C02', zand(inb, zeq(c, LBRACE)), 'MID', quoted, push(push(push(A, BS), DOLLAR), LBRACE), p + 1)]
+                exp_ret += [('C08', zand(inb, c != LBRACE), 'err', 'ControlWithoutValidValue'), ('C08', atend, 'err', 'ControlWithoutValidValue')]
+            exp_back = [x[1:] for x in exp_back if x[0] == part]; exp_ret = [x[1:] for x in exp_ret if x[0] == part]
+            # every path of the iteration continues, returns or panics (panic-freedom is an obligation of its own), so
+            # "continues in the prescribed cases" + "does not continue in the return cases" pins down which of the two happens
+            goes_on = back.g if back is not None else False
+            for cnd, ph2, q2, A2, p2 in exp_back:
+                obs.append((cnd, goes_on, '%s + char -> %s: the scanner keeps going' % (phase, ph2)))
+                if back is not None:
+                    s1 = read_state(cap, back)
+                    obs.append((zand(back.g, cnd), is_phase(s1, ph2, q2, A2, p2), '%s + char -> %s with the prescribed accumulated text' % (phase, ph2)))
+            for cnd, kind, payload in exp_ret:
+                obs.append((cnd, znot(goes_on), '%s: the scan of this token ends here' % phase))
+            # returns
+            for tgt, est in exits.items():
+                if not exp_ret: break
+                rs, rv = (est, est.m.get((fid, 0))) if tgt == 'RET' else e.finish_from(fn, fid, tgt, est)
+                if rs is None: continue
+                for cnd, kind, payload in exp_ret:
+                    if kind == 'err':
+                        k = names.index(payload)
+                        obs.append((zand(rs.g, cnd), zand(zeq(rv.d, 1), zeq(rv.p[1][0].d, k)) if 1 in rv.p else False, '%s: %s is reported' % (phase, payload)))
+                    else:
+                        tup = rv.p[0][0] if 0 in rv.p else None
+                        want_some = kind == 'some'
+                        cond = False if tup is None else zand(zeq(rv.d, 0), zor(*[zeq(tup.f[0], x) for x in payload]) if isinstance(payload, tuple) else zeq(tup.f[0], payload), zeq(tup.f[1].d, 1 if want_some else 0),
+                                                              str_eq(tup.f[1].p[1][0], A) if want_some and 1 in tup.f[1].p else (not want_some))
+                        obs.append((zand(rs.g, cnd), cond, '%s: the token ends with the prescribed index and text' % phase))
+        if part != 'C01': e.obligations = [o for o in e.obligations if False]      # panic / unwinding obligations of the iteration are claimed once, in C01
+        for g, cnd, msg in obs: e.obligations.append(Obligation(g, cnd, '%s scanner lemma (%s): %s' % (part, phase, msg), 'assert', 'oracle'))
+        lemmas += len(obs)
+        jr.symex_time += time.time() - t0
+
+        def extract(m, o=None, phase=phase):
+            d = dict(kind='c01_lemma', phase=phase, buffer=solve.model_str(m, buf))
+            if phase == 'BASE': d.update(p=solve.model_int(m, start), quoted=False, A='')
+            else: d.update(p=solve.model_int(m, p), quoted=solve.model_bool(m, quoted), A=solve.model_str(m, A))
+            return d
+        plain = True
+        if phase in ('MID', 'CTL', 'VAR'):      # counterexamples whose accumulated text is plain letters can be rebuilt as a real line
+            plain = zand(*[zimp(A.len > i, zand(A.ch[i] >= 97, A.ch[i] <= 122)) for i in range(C)])
+        if phase != 'BASE':      # ... and whose buffer goes on with one plain letter, so that the examined character is not at the (trimmed) end of the line
+            plain = zand(plain, zimp(inb, zand(zeq(buf.len, p + 2), zeq(sel(buf.ch, p + 1, 0), 122))))
+        res = discharge_known(e, jr, pid, {}, extract, prefer=plain)
+        if phase != 'BASE' and back is not None:
+            witness(jr, e, 'scanner lemma %s: the iteration continues' % phase, back.g, extract)
+        H.finish_job(jr, e, res)
+    jr.samples.append({'lemmas': lemmas})
